@@ -15,5 +15,8 @@ PROP = {
         miri("c07", seeds_q=8, seeds_t=320, scale=100, args={"histories": {"quick": 4, "thorough": 6}}),
         # all three receiver flavours: tokio was quiet under TSan (-Zbuild-std) in this sandbox
         san("tsan", "c07", scale=10),
+        native("c07x", pkg="monx", name="files-e2e"),
+        script("strace", "c10-strace", tiers=T, args={"prop": "C07"}),
+        native("c07o", pkg="monx", name="otlp-e2e", args={"prop": "C07"}),
     ],
 }
